@@ -54,6 +54,16 @@ def name_program(nm, mask=15, dim=True):
     dims = ([(N, [5], ["5"])] if na else []) + ([(S, [5], ["5"])] if sa else [])
     if not dim:
         dims = []       # the arrays are never DIMensioned (implicit 0..10)
+    else:
+        # the scalars of the same name may be listed in the same DIM statement, before, between or after the arrays
+        sc = ([(N, [], [])] if ns else []) + ([(S, [], [])] if ss else [])
+        k = (len(nm) + mask) % 4
+        if k == 1:
+            dims = sc + dims
+        elif k == 2:
+            dims = dims + sc
+        elif k == 3:
+            dims = dims[:1] + sc + dims[1:]
     line(10, ("dim", dims) if dims else None)
     line(20, ("let", v(N), one, False) if ns else None, ("let", v(S), ("str", "A"), False) if ss else None)
     line(30, ("let", a(N, one), ("bin", "+", v(N) if ns else two, a(N, two)), False) if na else None,
@@ -175,6 +185,12 @@ def run_case(case):
             for name, idx, nsub, fld in inf.uses:
                 if name in all4 and fld is None:
                     kinds.setdefault(name, set()).add("array" if nsub else "scalar")
+            if case.get("dim", True):
+                # the array DIMensioned in the source is the array that is used: same identifier, the source's bound
+                for name, dims, ty, kind, idx in inf.decls:
+                    if name in all4 and name.startswith("arr_") and tuple(dims) != (6,):
+                        obs["viols"].append({"sig": "C09/dimensioned-array-replaced", "detail": dict(detail, identifier=name, dims=list(dims))})
+                        break
             both = sorted(nm2 for nm2, ks in kinds.items() if len(ks) > 1)
             obs["counters"]["kind_checks"] = len(kinds)
             if both:
